@@ -40,6 +40,9 @@ def parseOp (ws : List String) : Op :=
   | ["fs", "open"] => .work (.fs .open 0)
   | ["fs", "close"] => .work (.fs .close 0)
   | ["fs", "stat"] => .work (.fs .stat 0)
+  | ["fs", "open", "missing"] => .work (.fs .open 1)     -- the operation fails (ENOENT / EBADF): same accounting
+  | ["fs", "close", "bad"] => .work (.fs .close 1)
+  | ["fs", "stat", "missing"] => .work (.fs .stat 1)
   | ["fs", "read", n] => match n.toNat? with | some n => if n == 0 then bad else .work (.fs .read n) | none => bad
   | ["fs", "write", n] => match n.toNat? with | some n => if n == 0 then bad else .work (.fs .write n) | none => bad
   | ["getaddrinfo"] => .work .getaddrinfo
@@ -65,6 +68,7 @@ def parseOp (ws : List String) : Op :=
   | ["due_in", h] => match hId h with | some h => .dueIn h | none => bad
   | ["make_readable", h] => match hId h with | some h => .env "make_readable" h | none => bad
   | ["drain", h] => match hId h with | some h => .env "drain" h | none => bad
+  | ["peer_reset", h] => match hId h with | some h => .env "peer_reset" h | none => bad
   | _ => bad
 
 def hn (id : Nat) : String := s!"h{id - 2}"
@@ -83,9 +87,9 @@ def opText : Op → String
   | .bind h => s!"bind {hn h}"
   | .udpSend h => s!"udp_send {hn h}"
   | .work .queueWork => "work"
-  | .work (.fs .open _) => "fs open"
-  | .work (.fs .close _) => "fs close"
-  | .work (.fs .stat _) => "fs stat"
+  | .work (.fs .open n) => if n == 0 then "fs open" else "fs open missing"
+  | .work (.fs .close n) => if n == 0 then "fs close" else "fs close bad"
+  | .work (.fs .stat n) => if n == 0 then "fs stat" else "fs stat missing"
   | .work (.fs .read n) => s!"fs read {n}"
   | .work (.fs .write n) => s!"fs write {n}"
   | .work .getaddrinfo => "getaddrinfo"
